@@ -125,9 +125,17 @@ func tthDecodeAll(frame []byte, chunk int) (V, V, V) {
 		return p, err, 0
 	})
 	d3 := tthRunDecode(func() (ttheader.DecodeParam, error, int) {
-		r := bufiox.NewDefaultReader(&tthChunkReader{data: frame, chunk: chunk})
+		// the frame is not the first thing on this reader: a few bytes of an earlier message are
+		// consumed first and NOT released, so ReadLen is not zero when Decode starts (pipelined frames);
+		// header/payload lengths must not depend on that
+		pre := 1 + len(frame)%7
+		data := append(append(make([]byte, 0, pre+len(frame)), Pat(len(frame), pre)...), frame...)
+		r := bufiox.NewDefaultReader(&tthChunkReader{data: data, chunk: chunk})
+		if _, err := r.Next(pre); err != nil {
+			panic("c06: prefix read failed: " + err.Error())
+		}
 		p, err := ttheader.Decode(ctx, r)
-		rl := r.ReadLen()
+		rl := r.ReadLen() - pre
 		if err == nil {
 			// force copies before the reader's buffers go back to the pool
 			_ = Show(tthDec{st: 0, p: p}.V(false))
